@@ -21,7 +21,7 @@ func (in *Interp) liveThreads() int {
 
 // visible marks a scheduling point. It returns true when the operation may be performed now.
 func (in *Interp) visible(th *Thread, f *Frame, desc string, enabled func() bool) bool {
-	if th.id >= 0 && !th.granted && !in.userContext(th) && desc != "symYield" && desc != "symWaitUntil" {
+	if th.id >= 0 && !th.granted && !in.userContext(th) && desc != "symYield" && desc != "symIdle" && desc != "symWaitUntil" {
 		// inside un-instrumented library code (context, ...): not a scheduling point unless it has to block
 		if enabled == nil || enabled() {
 			return true
@@ -88,7 +88,11 @@ func (in *Interp) schedule() *Thread {
 	}
 	if curEnabled {
 		cands = append([]*Thread{cur}, cands...)
-		if in.preempts >= in.cfg.Preempt {
+		lim := in.cfg.Preempt
+		if in.preemptLim >= 0 && in.preemptLim < lim {
+			lim = in.preemptLim
+		}
+		if in.preempts >= lim {
 			cands = cands[:1]
 		}
 	}
